@@ -56,9 +56,14 @@ BadEls == {Obj(<< <<kk, Bool(TRUE)>> >>), Obj(<< <<kk, Arr(<<IntV(1)>>)>> >>), O
 BadArrays == {Arr(<<x, y>>) : x \in BadEls, y \in BadEls} \cup {Arr(<<x, y, z>>) : x \in BadEls, y \in BadEls, z \in {Obj(<< <<kk, IntV(1)>> >>), Obj(<< <<kk, Str(ka)>> >>)}}
 PlainArrays == {Arr(<<x, y, z>>) : x \in {IntV(2), Str(kb), Bool(TRUE)}, y \in {IntV(1), Str(ka), Arr(<<IntV(1)>>)}, z \in {IntV(2), Str(kb)}}
 
+\* strings by code point: prefixes, the empty string, upper before lower case, non-ASCII last
+StrMembers == {Str(<<>>), Str(<<97>>), Str(<<97, 98>>), Str(<<98>>), Str(<<66>>), Str(<<233>>), Str(<<97, 97>>)}
+StringArrays == {Arr(<<x, y, z>>) : x \in StrMembers, y \in StrMembers, z \in StrMembers} \cup {Arr(<<x, y>>) : x \in StrMembers, y \in StrMembers}
 Init == /\ \/ \E p \in SortProgs \cup FnSortProgs, a \in AllArrays : case = MkCase(p, a)
            \/ \E p \in {NSort(NVar(""), <<Term("", K)>>), NSort(NVar(""), <<Term(">", K), Term("", S)>>)}, a \in BadArrays : case = MkCase(p, a)
            \/ \E a \in PlainArrays, p \in {NCall(NVar("sort"), <<NVar("")>>), NSort(NVar(""), <<Term("", NVar(""))>>), NSort(NVar(""), <<Term(">", NVar(""))>>)} : case = MkCase(p, a)
+           \/ \E a \in StringArrays, p \in {NCall(NVar("sort"), <<NVar("")>>), NSort(NVar(""), <<Term("", NVar(""))>>), NSort(NVar(""), <<Term(">", NVar(""))>>),
+                                            NCall(NVar("sort"), <<NVar(""), NLambda(<<"l", "r">>, NCmpOp(">", NVar("l"), NVar("r")))>>)} : case = MkCase(p, a)
         /\ out = Pending
 Next == EvaluateCase
 Spec == Init /\ [][Next]_mcvars
